@@ -16,6 +16,7 @@ import (
 	"time"
 
 	"github.com/VKCOM/tl/pkg/rpc"
+	"pgregory.net/rand"
 
 	"github.com/VKCOM/statshouse/internal/compress"
 	"github.com/VKCOM/statshouse/internal/data_model"
@@ -285,6 +286,18 @@ func (v *VerifC01Agent) Unread() (times []uint32) {
 		scan(w.name, 0)
 	}
 	return times
+}
+
+// SetShardSampleBudget = `--shard-sample-budget <shard>:<bytes>` for this shard.
+func (v *VerifC01Agent) SetShardSampleBudget(bytes int) {
+	v.shard.mu.Lock()
+	defer v.shard.mu.Unlock()
+	v.shard.config.ShardSampleBudget = map[int]int{int(v.shard.ShardKey): bytes}
+}
+
+// PreProcess = the real Shard.preProcess: sampleBucket, WriteTL1Boxed, CompressAndFrame, sendToSenders.
+func (v *VerifC01Agent) PreProcess(bucket *data_model.MetricsBucket, seed uint64) {
+	v.shard.preProcess(bucket, nil, map[int32]uint32{}, map[int32]uint32{}, rand.New(seed))
 }
 
 func (v *VerifC01Agent) OutOfWindowDropped() int64 { return v.shard.HistoricOutOfWindowDropped.Load() }
